@@ -8,6 +8,7 @@ import (
 	"os/exec"
 	"path/filepath"
 	"regexp"
+	"sort"
 	"strconv"
 	"strings"
 	"sync"
@@ -21,14 +22,22 @@ import (
 // property's seeded concurrent programs free-running on real threads. This is
 // sampling of real schedules, not deterministic simulation: a report is real
 // (the detector has no false positives); its replay is best effort.
-func runRace(sp *propSpec, tier string, seed uint64, known *knownFile) (*harness.Violation, string, map[string]any) {
+//
+// The ids run are the property's own and its parts (sp.Also), chunk by chunk in
+// turn. The detector does not halt at a report (halt_on_error=0): it prints
+// each distinct race once per process and the programmes go on, so that a race
+// recorded as a known finding does not hide the others. Every report becomes a
+// violation whose signature names the top perkeep frames of the two accesses;
+// reports matching a known finding (under matchProp) are counted, the first
+// other one is returned.
+func runRace(sp *propSpec, tier string, seed uint64, known *knownFile, matchProp string) (*harness.Violation, string, map[string]any, map[string]int) {
 	info := map[string]any{"note": "free-running workloads under the Go race detector; sampling of real schedules, not deterministic simulation"}
 	st := time.Now()
 	bin, err := buildSim(true)
 	if err != nil {
 		fmt.Fprintln(os.Stderr, "[check] race binary could not be built (data-race clause not exercised):", err)
 		info["built"] = false
-		return nil, "", info
+		return nil, "", info, nil
 	}
 	budget := 40 * time.Second
 	runsPer := 150
@@ -39,16 +48,20 @@ func runRace(sp *propSpec, tier string, seed uint64, known *knownFile) (*harness
 	ctx, cancel := context.WithTimeout(context.Background(), budget)
 	defer cancel()
 	type hit struct {
+		id       string
 		from, to int
 		report   string
 	}
+	ids := append([]string{sp.ID}, sp.Also...)
+	nextOf := map[string]int{} // per id: first run index not handed out yet
+	totalOf := map[string]int{}
+	turn := 0
 	var (
 		mu    sync.Mutex
 		hits  []hit
 		total int
 		wg    sync.WaitGroup
 	)
-	next := 0
 	var nextMu sync.Mutex
 	for w := 0; w < 8; w++ {
 		wg.Add(1)
@@ -56,19 +69,21 @@ func runRace(sp *propSpec, tier string, seed uint64, known *knownFile) (*harness
 			defer wg.Done()
 			for ctx.Err() == nil {
 				nextMu.Lock()
-				from := next
-				next += runsPer
+				id := ids[turn%len(ids)] // alternate between the property's ids
+				turn++
+				from := nextOf[id]
+				nextOf[id] += runsPer
 				nextMu.Unlock()
-				out := filepath.Join(workDir(), "runs", fmt.Sprintf("race-%d.jsonl", from))
+				out := filepath.Join(workDir(), "runs", fmt.Sprintf("race-%s-%d.jsonl", id, from))
 				cmd := exec.CommandContext(ctx, bin, "-test.run", "^TestRun$", "-test.timeout", "0",
-					"-sim.prop="+sp.ID, "-sim.tier="+tier, "-sim.seed="+strconv.FormatUint(seed, 10),
+					"-sim.prop="+id, "-sim.tier="+tier, "-sim.seed="+strconv.FormatUint(seed, 10),
 					"-sim.from="+strconv.Itoa(from), "-sim.to="+strconv.Itoa(from+runsPer), "-sim.race", "-sim.out="+out,
 					"-sim.known="+filepath.Join(verifDir, "KNOWN_FINDINGS.json"),
 					"-sim.work="+filepath.Join(workDir(), "runs"))
-				cmd.Env = append(os.Environ(), "VERIF_FREE=1", "GOMAXPROCS=4", "GORACE=halt_on_error=1 exitcode=66 history_size=3")
+				cmd.Env = append(os.Environ(), "VERIF_FREE=1", "GOMAXPROCS=4", "GORACE=halt_on_error=0 exitcode=66 history_size=3")
 				cmd.Dir = verifDir
 				var stderr strings.Builder
-				cmd.Stderr = &limitedWriter{w: &stderr, n: 1 << 17}
+				cmd.Stderr = &limitedWriter{w: &stderr, n: 1 << 18}
 				cmd.Run()
 				n := 0
 				if b, err := os.ReadFile(out); err == nil {
@@ -77,8 +92,12 @@ func runRace(sp *propSpec, tier string, seed uint64, known *knownFile) (*harness
 				os.Remove(out)
 				mu.Lock()
 				total += n
-				if strings.Contains(stderr.String(), "WARNING: DATA RACE") {
-					hits = append(hits, hit{from + n, from + runsPer, stderr.String()})
+				totalOf[id] += n
+				for _, rep := range strings.Split(stderr.String(), "WARNING: DATA RACE")[1:] {
+					if i := strings.Index(rep, "=================="); i > 0 {
+						rep = rep[:i]
+					}
+					hits = append(hits, hit{id, from, from + runsPer, "WARNING: DATA RACE" + rep})
 				}
 				mu.Unlock()
 			}
@@ -86,36 +105,74 @@ func runRace(sp *propSpec, tier string, seed uint64, known *knownFile) (*harness
 	}
 	wg.Wait()
 	info["programs_run"] = total
+	info["programs_run_by_id"] = totalOf
 	info["wall_s"] = time.Since(st).Seconds()
 	info["gomaxprocs"] = 4
 	info["races_reported"] = len(hits)
-	if len(hits) == 0 {
-		return nil, "", info
-	}
-	h := hits[0]
-	rep := h.report
-	if i := strings.Index(rep, "WARNING: DATA RACE"); i >= 0 {
-		rep = rep[i:]
-	}
-	if i := strings.Index(rep, "=================="); i > 0 {
-		rep = rep[:i]
-	}
-	// signature: the two top frames inside perkeep
-	re := regexp.MustCompile(`(?m)^\s+(perkeep\.org/[^\s(]+)`)
-	var frames []string
-	for _, m := range re.FindAllStringSubmatch(rep, -1) {
-		frames = append(frames, m[1])
-		if len(frames) == 4 {
-			break
+	knownHits := map[string]int{}
+	var first *harness.Violation
+	var firstHit hit
+	distinct := map[string]int{}
+	for _, h := range hits {
+		sig := raceSig(h.report)
+		distinct[sig]++
+		v := harness.Viol("data-race", sig, "the race detector reported a data race while running the seeded concurrent programs of "+h.id+" (runs "+strconv.Itoa(h.from)+".."+strconv.Itoa(h.to)+"):\n"+tail(h.report, 6000), -1)
+		if what, ok := known.match(matchProp, v); ok {
+			knownHits[what]++
+			continue
+		}
+		if first == nil {
+			first, firstHit = v, h
 		}
 	}
-	sig := "data-race@" + strings.Join(frames, "|")
-	v := harness.Viol("data-race", sig, "the race detector reported a data race while running the seeded concurrent programs (runs "+strconv.Itoa(h.from)+".."+strconv.Itoa(h.to)+"):\n"+tail(rep, 3000), -1)
+	info["distinct_race_signatures"] = distinct
+	if first == nil {
+		return nil, "", info, knownHits
+	}
+	h := firstHit
 	dir := filepath.Join(verifDir, "replays")
 	os.MkdirAll(dir, 0o755)
-	path := filepath.Join(dir, fmt.Sprintf("%s-%d-race-%d.json", sp.ID, seed, h.from))
-	b, _ := json.MarshalIndent(map[string]any{"property": sp.ID, "seed": seed, "race": true, "from": h.from, "to": h.to, "violation": v,
-		"note": "re-run with: .work/race.test -test.run '^TestRun$' -sim.prop=" + sp.ID + " -sim.race -sim.from=" + strconv.Itoa(h.from) + " -sim.to=" + strconv.Itoa(h.to) + " (GORACE=halt_on_error=1, VERIF_FREE=1, GOMAXPROCS=4); best-effort: real schedules are sampled, not replayed"}, "", " ")
+	path := filepath.Join(dir, fmt.Sprintf("%s-%d-race-%d.json", h.id, seed, h.from))
+	b, _ := json.MarshalIndent(map[string]any{"property": sp.ID, "id": h.id, "seed": seed, "race": true, "from": h.from, "to": h.to, "violation": first,
+		"note": "re-run with: .work/race.test -test.run '^TestRun$' -sim.prop=" + h.id + " -sim.race -sim.from=" + strconv.Itoa(h.from) + " -sim.to=" + strconv.Itoa(h.to) + " (GORACE=halt_on_error=0, VERIF_FREE=1, GOMAXPROCS=4); best-effort: real schedules are sampled, not replayed"}, "", " ")
 	os.WriteFile(path, b, 0o644)
-	return v, path, info
+	return first, path, info, knownHits
+}
+
+var raceFrameRE = regexp.MustCompile(`^\s+(perkeep\.org/\S+)\(\)$`)
+
+// raceSig names a race report by the top three perkeep frames of each of its
+// two accesses ("Write at ... by goroutine N:" / "Previous read at ..."
+// sections), the two accesses in lexical order:
+// data-race@<frames of one access joined by |>~<frames of the other>.
+func raceSig(rep string) string {
+	var accesses []string
+	var cur []string
+	in := false
+	flush := func() {
+		if in {
+			accesses = append(accesses, strings.Join(cur, "|"))
+		}
+		cur, in = nil, false
+	}
+	for _, line := range strings.Split(rep, "\n") {
+		t := strings.TrimSpace(line)
+		switch {
+		case strings.HasSuffix(t, ":") && strings.Contains(t, " by ") && (strings.Contains(t, "rite at ") || strings.Contains(t, "ead at ") || strings.Contains(t, "tomic")):
+			flush()
+			in = true
+		case t == "" || strings.HasPrefix(t, "Goroutine "):
+			flush()
+		case in:
+			if m := raceFrameRE.FindStringSubmatch(line); m != nil && len(cur) < 3 {
+				cur = append(cur, m[1])
+			}
+		}
+	}
+	flush()
+	if len(accesses) > 2 {
+		accesses = accesses[:2]
+	}
+	sort.Strings(accesses)
+	return "data-race@" + strings.Join(accesses, "~")
 }
